@@ -22,6 +22,7 @@ ASSUMPTIONS = [
     "optimal_clone acts on qubit states given as column vectors (its SDP hard-codes local dimension 2)",
 ]
 TOL = 2e-4
+SOLVER_TIME_LIMIT = 300
 CASE_TIMEOUT = {"quick": 900, "thorough": 2400}
 
 
